@@ -354,6 +354,27 @@ func (b *bufferedReadSeeker) Seek(offset int64, whence int) (int64, error) {
 	return int64(b.readHead), nil
 }
 
+// attemptBody is the request body used for a single attempt at posting a response.
+//
+// The HTTP transport can keep reading the body of a request from a separate goroutine
+// even after the call that sent the request has returned (for instance, when the server
+// responds before it has read the entire request), but it always closes the body once
+// it is done with it. The `done` channel is closed when that happens.
+type attemptBody struct {
+	io.Reader
+	done     chan struct{}
+	doneOnce sync.Once
+}
+
+func newAttemptBody(r io.Reader) *attemptBody {
+	return &attemptBody{Reader: r, done: make(chan struct{})}
+}
+
+func (b *attemptBody) Close() error {
+	b.doneOnce.Do(func() { close(b.done) })
+	return nil
+}
+
 func postResponseWithRetries(client *http.Client, proxyURL, backendID, requestID string, proxyReader io.Reader) error {
 	proxyReadSeeker := newBufferedReadSeeker(proxyReader, readResponseBufSize)
 	proxyReq, err := http.NewRequest(http.MethodPost, proxyURL, proxyReadSeeker)
@@ -365,7 +386,15 @@ func postResponseWithRetries(client *http.Client, proxyURL, backendID, requestID
 	proxyReq.Header.Set("Content-Type", "text/plain")
 	var proxyResp *http.Response
 	for retryCount := 0; retryCount <= maxWriteResponseRetryCount; retryCount++ {
-		if proxyResp, err = client.Do(proxyReq); err != nil {
+		// Each attempt gets its own copy of the request and its own body, so that we
+		// can tell when the transport has stopped reading from the previous attempt.
+		attemptBody := newAttemptBody(proxyReadSeeker)
+		attemptReq := proxyReq.Clone(proxyReq.Context())
+		attemptReq.Body = attemptBody
+		if proxyResp, err = client.Do(attemptReq); err != nil {
+			// We must not rewind (or read from) the underlying reader
+			// while the failed attempt might still be reading from it.
+			<-attemptBody.done
 			if _, seekErr := proxyReadSeeker.Seek(0, io.SeekStart); seekErr != nil {
 				return err
 			}
@@ -373,6 +402,7 @@ func postResponseWithRetries(client *http.Client, proxyURL, backendID, requestID
 		}
 		proxyResp.Body.Close()
 		if 500 <= proxyResp.StatusCode && proxyResp.StatusCode < 600 {
+			<-attemptBody.done
 			if _, seekErr := proxyReadSeeker.Seek(0, io.SeekStart); seekErr != nil {
 				return err
 			}
